@@ -19,10 +19,10 @@ import types
 
 import z3
 
-from .vals import (IntV, BoolV, TupV, ConstV, UnkV, ObjV, ExcV, FuncV, Val, lift, int_term,
+from .vals import (IntV, BoolV, RealV, TupV, ConstV, UnkV, ObjV, ExcV, FuncV, Val, lift, int_term,
                    is_conc_int, conc_int, fresh_int, fresh_bool, simp, mk_and, mk_or,
                    pow2_f, bitlen_f, ipow_f, and_uf, or_uf, xor_uf, mk_mask, _mask_terms,
-                   pow2_term, is_pow2m1, is_single_bit)
+                   pow2_term, is_pow2m1, is_single_bit, cfix_f, rval_f, rfun_f, fresh_real)
 from . import contract as C
 
 TRUE = z3.BoolVal(True)
@@ -485,6 +485,8 @@ class Pure(object):
         if isinstance(node.op, ast.Not):
             return BoolV(z3.Not(self.truthy(v)))
         t = int_term(v)
+        if isinstance(v, RealV) and isinstance(node.op, (ast.USub, ast.UAdd)):
+            return RealV(-v.t if isinstance(node.op, ast.USub) else v.t)
         if t is None:
             if isinstance(v, ConstV) and isinstance(v.obj, float):
                 try:
@@ -717,6 +719,35 @@ class Pure(object):
     def prim_fmod(self, a, b):
         return self.binop(ast.Mod(), a, b)
 
+    def prim_rval(self, x):
+        """exact real value of a finite raw mpf (uninterpreted; linked to the sign by val_link)"""
+        items = self.iter_items(x)
+        if items is None or len(items) != 4:
+            return self.unk('rval of non-mpf')
+        sg, man, ex = int_term(items[0]), int_term(items[1]), int_term(items[2])
+        if sg is None or man is None or ex is None:
+            return self.unk('rval of non-mpf')
+        if z3.is_int_value(man) and man.as_long() == 0:
+            return RealV(z3.RealVal(0))
+        r = rval_f(sg, man, ex)
+        key = ('rval', r.get_id())
+        if key not in self.st.memo:
+            # definition of the value as far as its sign goes: (-1)**sign * man * 2**exp with man >= 0
+            self.st.memo[key] = r
+            self.st.pc.append(z3.And(z3.Implies(man == 0, r == 0),
+                                     z3.Implies(z3.And(man > 0, sg == 0), r > 0),
+                                     z3.Implies(z3.And(man > 0, sg == 1), r < 0)))
+        return RealV(r)
+
+    def prim_r_fun(self, k, v):
+        rv = self.real_term(v)
+        if rv is None or int_term(k) is None:
+            return self.unk('r_fun of non-real')
+        return RealV(rfun_f(int_term(k), rv))
+
+    def prim_cfix(self, p):
+        return IntV(cfix_f(int_term(p)))
+
     def prim_shr(self, x, n):
         return self.binop(ast.RShift(), x, n)
 
@@ -875,7 +906,29 @@ class Pure(object):
         return z3.If(z3.And(ta >= 0, ta <= 1), ta * (tb % 2),
                      z3.If(z3.And(tb >= 0, tb <= 1), tb * (ta % 2), and_uf(ta, tb)))
 
+    def real_term(self, v):
+        if isinstance(v, RealV):
+            return v.t
+        if isinstance(v, ConstV) and isinstance(v.obj, float) and v.obj == v.obj and abs(v.obj) != float('inf'):
+            from fractions import Fraction
+            q = Fraction(v.obj)
+            return z3.RealVal(str(q.numerator)) / z3.RealVal(str(q.denominator))
+        t = int_term(v)
+        if t is not None:
+            return z3.ToReal(t)
+        return None
+
     def binop_nonint(self, op, a, b):
+        if (isinstance(a, RealV) or isinstance(b, RealV) or
+                (isinstance(a, ConstV) and isinstance(a.obj, float)) or (isinstance(b, ConstV) and isinstance(b.obj, float))) \
+                and not (isinstance(a, ConstV) and isinstance(b, ConstV)) and isinstance(op, (ast.Add, ast.Sub, ast.Mult, ast.Div)):
+            ra, rb = self.real_term(a), self.real_term(b)
+            if ra is not None and rb is not None and isinstance(op, ast.Div):
+                return RealV(ra / rb)                  # spec use only: the divisor is required to be non-zero by the clause
+            if ra is not None and rb is not None:
+                if any(isinstance(v, ConstV) and isinstance(v.obj, float) for v in (a, b)):
+                    self.eng.note('float arithmetic read as exact real arithmetic (line %s)' % self.lineno)
+                return RealV(ra + rb if isinstance(op, ast.Add) else ra - rb if isinstance(op, ast.Sub) else ra * rb)
         if isinstance(op, ast.Add) and isinstance(a, TupV) and isinstance(b, TupV):
             return TupV(a.items + b.items, a.kind)
         if isinstance(a, ConstV) and isinstance(b, ConstV):
@@ -907,6 +960,10 @@ class Pure(object):
             e = self.contains(b, a)
             return e if isinstance(op, ast.In) else z3.Not(e)
         ta, tb = int_term(a), int_term(b)
+        if isinstance(a, RealV) or isinstance(b, RealV):
+            ra, rb = self.real_term(a), self.real_term(b)
+            if ra is not None and rb is not None:
+                ta, tb = ra, rb
         if ta is None or tb is None:
             ca, cb = to_concrete(a), to_concrete(b)
             if ca is not NOTCONC and cb is not NOTCONC:
@@ -936,6 +993,10 @@ class Pure(object):
         ta, tb = int_term(a), int_term(b)
         if ta is not None and tb is not None:
             return ta == tb
+        if isinstance(a, RealV) or isinstance(b, RealV):
+            ra, rb = self.real_term(a), self.real_term(b)
+            if ra is not None and rb is not None:
+                return ra == rb
         if isinstance(a, TupV) and isinstance(b, TupV):
             if len(a.items) != len(b.items) or a.kind != b.kind:
                 return FALSE
@@ -1172,6 +1233,8 @@ def make_shape(shape, name):
         return IntV(fresh_int(name))
     if shape == 'bool':
         return BoolV(fresh_bool(name))
+    if shape == 'real':
+        return RealV(fresh_real(name))
     if shape == 'mpf':
         return TupV([IntV(fresh_int(name + '_sign')), IntV(fresh_int(name + '_man')),
                      IntV(fresh_int(name + '_exp')), IntV(fresh_int(name + '_bc'))])
@@ -1194,6 +1257,9 @@ def _b_int(p, args, kw):
         t = int_term(args[0])
         if t is not None:
             return IntV(t)
+        if isinstance(args[0], RealV):
+            r = args[0].t                              # truncation toward zero
+            return IntV(z3.If(r >= 0, z3.ToInt(r), -z3.ToInt(-r)))
     if len(args) == 2 and not kw and isinstance(args[0], HexV) and is_conc_int(args[1]) and conc_int(args[1]) == 16:
         return IntV(args[0].t)          # assumed builtin round trip (trusted base)
     return p.unk('int() of non-int')
@@ -1470,6 +1536,9 @@ class PathExec(object):
             kwargs = {}
             for k in node.keywords:
                 if k.arg is None:
+                    kv = p.ev(k.value)
+                    if isinstance(kv, ConstV) and isinstance(kv.obj, (SymDict, dict)) and not kv.obj:
+                        continue                       # **{}: no keyword arguments
                     bad = True
                     break
                 kwargs[k.arg] = p.ev(k.value)
@@ -1509,6 +1578,18 @@ class PathExec(object):
         if args is None:
             yield from self.unknown_call(fv, st, frame, guard, node, 'star-args call')
             return
+        ctf = frame.contract
+        if isinstance(fv, ObjV) and ctf is not None and fv.oid in getattr(ctf, 'closure_model', {}) \
+                and ctf.closure_model[fv.oid].get('call') is not None and not kwargs:
+            # call of a modelled free variable: its assumed contract (requires checked, result assumed)
+            cm = ctf.closure_model[fv.oid]
+            p = Pure(eng, st, {}, ct_globals(ctf), True, guard, lineno)
+            if cm.get('call_requires') is not None:
+                r = p.inline_spec(cm['call_requires'], args, {})
+                eng.oblig(st, 'precondition', 'call:%s.requires' % fv.oid, p.truthy(r), lineno, guard=guard)
+            eng.__dict__.setdefault('used_contracts', set()).add('%s:<free variable %s>' % (ctf.target, fv.oid))
+            yield st, p.inline_spec(cm['call'], args, {})
+            return
         if isinstance(fv, FuncV):
             if isinstance(fv.node, ast.Lambda):
                 env = dict(fv.env)
@@ -1535,7 +1616,7 @@ class PathExec(object):
                 # bound method of a concrete object
                 args = [ConstV(f.__self__)] + list(args)
                 f = f.__func__
-            ct = C.REGISTRY.get(id(f)) if getattr(eng, 'use_contracts', True) else None
+            ct = getattr(eng, 'registry', C.REGISTRY).get(id(f)) if getattr(eng, 'use_contracts', True) else None
             if ct is not None:
                 if ct.inline and eng.inline_depth < 4:
                     yield from self.inline_real(ct.func, args, kwargs, st, guard, lineno)
@@ -1590,8 +1671,21 @@ class PathExec(object):
                 env[k] = lift(dv)
         p = Pure(eng, st, env, ct.func.__globals__, True, guard, lineno)
         short = ct.target.split('.')[-1]
-        eng.__dict__.setdefault('used_contracts', set()).add(ct.target)
-        if ct.requires is not None:
+        eng.__dict__.setdefault('used_contracts', set()).add(getattr(ct, 'name', ct.target))
+        ginsts = []
+        if ct.ghost_params:
+            # universally quantified contract: instantiate the ghost parameters as the caller's contract says
+            caller = eng.cur_contract
+            k = st.ghostcount.get('call:' + short, 0)
+            st.ghostcount['call:' + short] = k + 1
+            specs = (getattr(caller, 'call_insts', {}) or {}).get((short, k)) or (getattr(caller, 'call_insts', {}) or {}).get(short) or []
+            pc_ = Pure(eng, st, st.env, ct_globals(caller) if caller is not None else ct.func.__globals__, True, guard, lineno)
+            for spec_ in specs:
+                ginsts.append({g: pc_.ev(ast.parse(src, mode='eval').body) for g, src in spec_.items()})
+            if not specs and not eng.tolerant:
+                eng.note('call of %s (line %s): quantified contract used without instantiation' % (short, lineno))
+        is_g = lambda fn: any(n in ct.ghost_params for n in inspect.signature(fn).parameters)   # noqa: E731
+        if ct.requires is not None and not is_g(ct.requires):
             r = p.inline_spec(ct.requires, [], {}, extra_env=pick_env(ct.requires, env))
             eng.oblig(st, 'precondition', 'call:%s.requires' % short, p.truthy(r), lineno, guard=guard,
                       props=None)
@@ -1615,6 +1709,17 @@ class PathExec(object):
         env2['result'] = res
         for name, fn, props in ct.ensures:
             if name in ct.native_clauses:
+                continue
+            if ct.ghost_params and is_g(fn):
+                # one instance of  (ghost requires => clause)  per declared instantiation
+                for gi in ginsts:
+                    env3 = dict(env2)
+                    env3.update(gi)
+                    pre = TRUE
+                    if getattr(ct, 'requires_g', None) is not None:
+                        pre = p.truthy(p.inline_spec(ct.requires_g, [], {}, extra_env=pick_env(ct.requires_g, env3)))
+                    e = p.inline_spec(fn, [], {}, extra_env=pick_env(fn, env3))
+                    st.assume(z3.Implies(z3.And(guard, pre), p.truthy(e)))
                 continue
             e = p.inline_spec(fn, [], {}, extra_env=pick_env(fn, env2))
             st.assume(z3.Implies(guard, p.truthy(e)))
